@@ -36,9 +36,10 @@ Formalisation choices (fixed here, see also `typedNormal` / `inRange` in the mod
   UnknownFields holding a field the message type defines); one is a defect (`hasStrayBit`: the struct-level face of
   KF-C13-2). `inRange` is a Go-typed struct in none of them. Sub-second times are outside the property by its own words
   ("times at whole-second resolution") and outside the model's struct.
-* developer fields, message → struct → message: the structs of file_id, developer_data_id and field_description have no
-  `DeveloperFields`; the property says "the same … developer fields" for every message type, so `typedNormalFull` keeps
-  them and the class `hasLostDev` is the third hypothesis of `C13_mesg_struct_mesg_partial` (KF-C13-3).
+* developer fields, message → struct → message: the property says "the same … developer fields" for every message type, so
+  `typedNormalFull` keeps them. Until /repo 72c2963 the structs of file_id, developer_data_id and field_description had no
+  `DeveloperFields` (class `hasLostDev`, KF-C13-3, reported by this check and repaired); `MesgTable.wf` now demands
+  `hasDev` and `C13_dev_fields_kept` is the clause for every message type (`C13_KF3_fixed_witness`: the pinned old shape).
 -/
 namespace Fit.C13
 open Fit.Typed Fit.Value Fit.Msg Fit.Gen
@@ -46,7 +47,8 @@ open Fit.Typed Fit.Value Fit.Msg Fit.Gen
 /-- Every regenerated per-message table (one per generated file of profile/mesgdef) is well-formed: no field number
 on which Reset panics; slot numbers distinct, read from and emitted under the same number, below the guard; each
 slot's accessor type fits its kind and is aligned with the field's base type; the value a mismatched type reads as,
-and the value ToMesg omits, are the base type's invalid value; eligible numbers lie inside the expanded bitmap. -/
+and the value ToMesg omits, are the base type's invalid value; eligible numbers lie inside the expanded bitmap; the struct has
+`DeveloperFields` (every message type, since /repo 72c2963). -/
 theorem C13_tables_wf : ∀ T ∈ Mesgdef.tables, T.wf = true := by
   decide +kernel
 
@@ -280,31 +282,43 @@ theorem C13_spec_valid_fixed_arrays (s : Slot) (n : Nat) (hk : s.kind = .fixed n
 
 /-- **What the property demands** (`typedNormalFull`: every field the struct has no slot for is kept with the unknown
 fields; the expanded mark of every known field is kept; developer fields are kept for every message type) — the full
-statement of message → struct → message. It is FALSE of the generated code: `C13_KF_witnesses`, known findings KF-C13-1,
-KF-C13-2 and KF-C13-3. -/
+statement of message → struct → message. It is FALSE of the generated code: `C13_KF_witnesses`, known findings KF-C13-1
+and KF-C13-2 (KF-C13-3, the developer fields of three message types, is repaired). -/
 def C13_mesg_struct_mesg_full : Prop :=
   ∀ (T : MesgTable), T.wf = true → ∀ (fac : Nat → Field) (o : Options) (m : Message) (st : Struct),
     ofMesg T m = .ok st → toMesg T fac o st = typedNormalFull T fac o m
 
-/-- **Message → struct → message, against the property's own normal form (partial).** Outside the three classes — no
+/-- **Message → struct → message, against the property's own normal form (partial).** Outside the two classes — no
 field with a name and a number below the struct's bound that the message type does not define (`hasForeign`, KF-C13-1),
-no expanded mark on a known field that is not a component target (`hasStrayMark`, KF-C13-2), no developer fields on a
-message whose struct has no `DeveloperFields` (`hasLostDev`: file_id, developer_data_id, field_description; KF-C13-3) —
-the code returns exactly what the property demands. The first two hypotheses hold of every message the decoder produces
-with the standard factory (named ⇔ defined by the profile; marks only on component targets: `C17_mesgdef_matches_xlsx`);
-the third fails for a developer_data_id / field_description message that itself carries described developer fields. -/
+no expanded mark on a known field that is not a component target (`hasStrayMark`, KF-C13-2) — the code returns exactly
+what the property demands. Both hypotheses hold of every message the decoder produces with the standard factory
+(named ⇔ defined by the profile; marks only on component targets: `C17_mesgdef_matches_xlsx`). The third class of the
+tree before /repo 72c2963 (`hasLostDev`, KF-C13-3: developer fields on a message whose struct has no `DeveloperFields`) is
+empty for every well-formed table: `T.wf` now demands `T.hasDev`, kernel-checked on the 119 regenerated tables
+(`C13_tables_wf`), so "the same developer fields" holds for EVERY message type. -/
 theorem C13_mesg_struct_mesg_partial (T : MesgTable) (hw : T.wf = true) (fac : Nat → Field) (o : Options) (m : Message)
-    (st : Struct) (h : ofMesg T m = .ok st) (h1 : hasForeign T m = false) (h2 : hasStrayMark T m = false)
-    (h3 : hasLostDev T m = false) :
+    (st : Struct) (h : ofMesg T m = .ok st) (h1 : hasForeign T m = false) (h2 : hasStrayMark T m = false) :
     toMesg T fac o st = typedNormalFull T fac o m := by
+  have h3 : hasLostDev T m = false := by simp [hasLostDev, wf_hasDev T hw]
   rw [typedNormalFull_eq T fac o m h1 h2 h3]; exact toMesg_ofMesg T hw fac o m st h
 
+/-- **Developer fields are kept for every message type** (the clause that failed for file_id, developer_data_id and
+field_description before /repo 72c2963): for every well-formed table and every message on which `NewXxx` does not
+panic, the developer fields of `NewXxx(&m).ToMesg(o)` are those of `m`, unchanged and in order. -/
+theorem C13_dev_fields_kept (T : MesgTable) (hw : T.wf = true) (fac : Nat → Field) (o : Options) (m : Message)
+    (st : Struct) (h : ofMesg T m = .ok st) : (toMesg T fac o st).devFields = m.devFields := by
+  rw [toMesg_ofMesg T hw fac o m st h]
+  simp [typedNormal, wf_hasDev T hw]
+
 /-- a pinned literal table shaped like today's file_id struct (one slot — `type`, number 0 — bound `Num > 8`), so that
-the witnesses keep checking whatever happens to /repo -/
+the witnesses keep checking whatever happens to /repo; `pinnedFileIdNoDev` is the same struct as it was before /repo
+72c2963 (no `DeveloperFields`): not well-formed any more -/
 def pinnedFileId : MesgTable :=
-  { name := 0, num := 0, guard := 9, panics := [], markBound := 0, hasDev := false
+  { name := 0, num := 0, guard := 9, panics := [], markBound := 0, hasDev := true
     slots := [{ num := 0, readNum := 0, kind := .scalar, ptype := typeUint8, dflt := .uint8 255, sentinel := .uint8 255,
                 canExpand := false, baseType := btEnum }] }
+
+def pinnedFileIdNoDev : MesgTable := { pinnedFileId with hasDev := false }
 
 def pinnedFac (num : Nat) : Field :=
   { base := some { num := num, baseType := btEnum, nameKnown := true }, value := .invalid }
@@ -333,8 +347,7 @@ def roundTrip (T : MesgTable) (fac : Nat → Field) (o : Options) (m : Message) 
 /-- **The witnesses.** On a well-formed table shaped like file_id: (1) the named field 6 is gone after the round trip
 (the property's normal form keeps it, and the code itself keeps the same field when it is called "unknown");
 (2) the mark of `type` is recorded by the struct (`IsExpandedField(0)`… here the bitmap bound is 0, on record it answers
-true) but the emitted field is unmarked, and it is emitted even when expanded fields are to be left out;
-(3) the developer field of a file_id message is gone after the round trip (the struct has nowhere to keep it). -/
+true) but the emitted field is unmarked, and it is emitted even when expanded fields are to be left out. -/
 theorem C13_KF_witnesses :
     pinnedFileId.wf = true ∧
     roundTrip pinnedFileId pinnedFac { includeExpanded := true } kf1Mesg ≠
@@ -349,12 +362,22 @@ theorem C13_KF_witnesses :
       some (typedNormalFull pinnedFileId pinnedFac { includeExpanded := true } kf2Mesg) ∧
     roundTrip pinnedFileId pinnedFac { includeExpanded := false } kf2Mesg ≠
       some (typedNormalFull pinnedFileId pinnedFac { includeExpanded := false } kf2Mesg) ∧
-    hasForeign pinnedFileId kf1Mesg = true ∧ hasStrayMark pinnedFileId kf2Mesg = true ∧
-    roundTrip pinnedFileId pinnedFac { includeExpanded := true } kf3Mesg ≠
-      some (typedNormalFull pinnedFileId pinnedFac { includeExpanded := true } kf3Mesg) ∧
-    (roundTrip pinnedFileId pinnedFac { includeExpanded := true } kf3Mesg).map (·.devFields.length) = some 0 ∧
-    (typedNormalFull pinnedFileId pinnedFac { includeExpanded := true } kf3Mesg).devFields.length = 1 ∧
-    hasLostDev pinnedFileId kf3Mesg = true ∧ hasForeign pinnedFileId kf3Mesg = false ∧ hasStrayMark pinnedFileId kf3Mesg = false := by
+    hasForeign pinnedFileId kf1Mesg = true ∧ hasStrayMark pinnedFileId kf2Mesg = true := by
+  decide
+
+/-- **KF-C13-3 (fixed in /repo 72c2963), kept as a pinned witness**: on a table shaped like the file_id struct BEFORE the
+repair (no `DeveloperFields`) the developer field of a file_id message is gone after the round trip, the property's
+normal form keeps it; such a table is no longer well-formed (a generated file that drops developer fields again breaks
+`C13_tables_wf`), and on the table with `DeveloperFields` the round trip is what the property demands. -/
+theorem C13_KF3_fixed_witness :
+    roundTrip pinnedFileIdNoDev pinnedFac { includeExpanded := true } kf3Mesg ≠
+      some (typedNormalFull pinnedFileIdNoDev pinnedFac { includeExpanded := true } kf3Mesg) ∧
+    (roundTrip pinnedFileIdNoDev pinnedFac { includeExpanded := true } kf3Mesg).map (·.devFields.length) = some 0 ∧
+    (typedNormalFull pinnedFileIdNoDev pinnedFac { includeExpanded := true } kf3Mesg).devFields.length = 1 ∧
+    hasLostDev pinnedFileIdNoDev kf3Mesg = true ∧ hasForeign pinnedFileIdNoDev kf3Mesg = false ∧
+    hasStrayMark pinnedFileIdNoDev kf3Mesg = false ∧ pinnedFileIdNoDev.wf = false ∧
+    roundTrip pinnedFileId pinnedFac { includeExpanded := true } kf3Mesg =
+      some (typedNormalFull pinnedFileId pinnedFac { includeExpanded := true } kf3Mesg) := by
   decide
 
 /-- hence the full statement is false -/
